@@ -7,7 +7,7 @@ SPEC = {
     "suites": [
         Suite(name="mode", harness="vh_mode", runner="c02",
               model_deps=["theories/Model/Gating.vo"],
-              quick_n=3000, thorough_n=60000,
+              quick_n=3000, thorough_n=30000,
               rule="cases: real Dir.Mode() and public telemetry.Mode() on a generated mode file (60%: the three modes / "
                    "upper case / other words / random bytes x no date, valid, zero, impossible, mis-shaped, mutated date x "
                    "one or two spaces or another separator x trailing newline, CRLF, NBSP, U+0085, lone continuation "
